@@ -200,8 +200,13 @@ def _repairs(bb, run):
         if mt and piece is not None:
             extra.append({"kind": "fn", "name": mt.group(1), "stub_only": True,
                           "source": piece.srcspec if piece.srcspec.startswith("repo:") else None, "_auto": True})
-    extra = [e for e in extra if e.get("source")]
-    return drop, extra, unfold
+    seen, uniq = set(), []
+    for e in extra:
+        key = (e["kind"], e.get("impl"), tuple(e.get("names") or ()), e.get("name"))
+        if e.get("source") and key not in seen:
+            seen.add(key)
+            uniq.append(e)
+    return drop, uniq, unfold
 
 
 def run_part(unit_dir, tag, tier, want_neg, part):
@@ -551,19 +556,31 @@ def check_property(prop, tier, quiet=False):
     known_for = [k for k in known.get("findings", []) if k.get("property") == prop]
     real_violations = []
     seen_ob = set()
+    known_hit = set()
     for v in violations:
-        if v["obligation"] in seen_ob:
-            continue
-        seen_ob.add(v["obligation"])
-        k = next((k for k in known_for if k.get("obligation") == v["obligation"]), None)
+        rendered = ((v.get("failure") or {}).get("rendered") or "") + " " + json.dumps((v.get("failure") or {}).get("where", ""))
+        # a known finding is identified by its obligation AND the failing site (a substring of the verifier's
+        # rendered report, e.g. the source line of the failing exit): another failing site of the same obligation,
+        # or the same site under another obligation, is a new violation
+        k = next((k for k in known_for if k.get("obligation") == v["obligation"]
+                  and (not k.get("site_contains") or k["site_contains"] in rendered)), None)
         if k is not None:
-            lines.append("KNOWN-FINDING: property=%s %s" % (prop, k.get("what", v["obligation"])))
-        else:
-            real_violations.append(v)
+            if k["id"] not in known_hit:
+                known_hit.add(k["id"])
+                lines.append("KNOWN-FINDING: property=%s %s" % (prop, k.get("what", v["obligation"])))
+            continue
+        key = (v["obligation"], rendered[:400])
+        if key in seen_ob:
+            continue
+        seen_ob.add(key)
+        if any(x["obligation"] == v["obligation"] for x in real_violations):
+            v = dict(v, obligation_site=len([x for x in real_violations if x["obligation"] == v["obligation"]]) + 1)
+        real_violations.append(v)
 
     os.makedirs(REPLAYS, exist_ok=True)
     for v in real_violations:
-        rp = os.path.join(REPLAYS, "%s-%s.json" % (prop, re.sub(r"[^A-Za-z0-9_.]+", "_", v["obligation"])))
+        rp = os.path.join(REPLAYS, "%s-%s%s.json" % (prop, re.sub(r"[^A-Za-z0-9_.]+", "_", v["obligation"]),
+                                                       (".site%d" % v["obligation_site"]) if v.get("obligation_site") else ""))
         cex = v.get("counterexample")
         with open(rp, "w") as f:
             json.dump({"property": prop, "obligation": v["obligation"], "unit": v["unit"], "tags": v["tags"],
@@ -597,6 +614,7 @@ def check_property(prop, tier, quiet=False):
         "assumptions": sorted(set(assumptions)) + X.GLOBAL_ASSUMPTIONS,
         "wall_s": round(wall, 2),
         "violations": len(real_violations),
+        "known_findings_reported": sorted(known_hit),
     }
     os.makedirs(EVID, exist_ok=True)
     with open(os.path.join(EVID, prop + ".json"), "w") as f:
